@@ -1,4 +1,4 @@
-//@props C11
+//@props C11 C02 C04
 //@rewrite `.eq(` => `.shim_eq(` :: rename of the provided trait method Iterator::eq, which Verus can neither call nor specify; the assumed contract is on ShimIterEq::shim_eq (spec/lib/iter_shims.rs)
 //@strip-attrs derive|non_exhaustive|error :: thiserror's derive output and its helper attributes are outside Verus; the enum's variants and fields are kept
 // Unit c11: bindgroup::get_bind_group_data against the complete C11 contract.
@@ -149,7 +149,7 @@ pub fn get_bind_group_data(
     requires
         module_wf(module), // [C11.pre] every type handle of a global is in range (naga's own invariant)
     ensures
-        bgd_post(module, r), // [C11.post] duplicate -> DuplicateBinding(first repeated index); not dense -> NonConsecutiveBindGroups; else Ok(map) with every bound global once, in its own group, with its own index»
+        bgd_post(module, r), // [C11.post] [C04.group-data] [C02.group-data] (what the bind group generators are handed: C04's `exactly one field per WGSL variable of that group` and C02's `each resource exists at its @group/@binding` start here) duplicate -> DuplicateBinding(first repeated index); not dense -> NonConsecutiveBindGroups; else Ok(map) with every bound global once, in its own group, with its own index»
 {
     «broadcast use axiom_arena_index_req, axiom_uarena_index_req;»
     // Use a BTree to sort type and field names by group index.
